@@ -19,7 +19,7 @@ def c47_runs(tier):
     # sanitizer legs (early, so that a tier cut short by machine load still has them)
     add(1, 'sets', 'qB2q', caller='ext', bound=1, mode='tsan', budget=150)
     add(1, 'ctsl', 'B2q', caller='pool', bound=1, mode='asan', budget=150)
-    # n=2: beyond (not far beyond) the factors; the long programs (thorough) cost 30k-120k executions each
+    # n=2: beyond the factors
     add(2, 'pool', 'qqqq', caller='ext', budget=120)
     add(2, 'ts', 'B3q', caller='ext', budget=120)
     add(2, 'ctsh', 'B3q', caller='pool', budget=120)
@@ -30,6 +30,11 @@ def c47_runs(tier):
     add(1, 'ctsl', 'qB2', t1='qq', caller='ext')
     # default multipliers (32 / 4): the load stays below the factors, the calls still must not run inline
     add(1, 'any', 'qB2q', mult=32, smult=4)
+    # n=2, far beyond every factor
+    add(2, 'pool', 'qqqqqqq', caller='ext', budget=120)
+    add(2, 'pool', 'qqqqqqq', caller='pool', budget=120)
+    add(2, 'sets', 'qB3qB2q', caller='pool', budget=150)
+    add(2, 'ts', 'qB3qB2q', caller='ext', budget=150)
     if not quick:
         # bound 2 on the shortest programs (first: they are what thorough adds)
         add(1, 'any', 'qq', bound=2, budget=300)
@@ -47,11 +52,6 @@ def c47_runs(tier):
         add(2, 'any', 'qB2q', gate=0, caller='pool', budget=200)
         add(2, 'ctsl', 'B3q', budget=200)
         add(2, 'ctsh', 'B3q', caller='ext', budget=200)
-        # n=2, far beyond every factor
-        add(2, 'pool', 'qqqqqqq', caller='ext', budget=300)
-        add(2, 'pool', 'qqqqqqq', caller='pool', budget=300)
-        add(2, 'sets', 'qB3qB2q', caller='pool', budget=300)
-        add(2, 'ts', 'qB3qB2q', caller='ext', budget=400)
         add(2, 'pool', 'qq', t1='q', caller='pool', budget=200)
         add(2, 'ctsl', 'B2', t1='q', gate=0, caller='ext', budget=200)
         add(2, 'ctsh', 'qB2', caller='ext', bound=1, mode='tsan', budget=200)
@@ -65,7 +65,7 @@ def c47_runs(tier):
     return runs
 
 
-reg('C47', level='model_checking', runs=c47_runs, quick_budget_s=400, thorough_budget_s=1800,
+reg('C47', level='model_checking', runs=c47_runs, quick_budget_s=400, thorough_budget_s=1200,
     technique='stateless model checking of every ForceQueuingTag entry point of the real ThreadPool / TaskSet / ConcurrentTaskSet under growing load, caller on an external thread or on a pool thread; thread identity and call-in-progress flag recorded by each functor',
     level_text='Pools of 1 and 2 threads; entry points ThreadPool::schedule(f,FQ), TaskSet::schedule(f,FQ), TaskSet::scheduleBulk(n,gen,FQ), ConcurrentTaskSet::schedule(f,FQ) and ::scheduleBulk(n,gen,FQ) with TaskCost::kLightweight (central queue) and TaskCost::kHeavy (steal-ring placement) - ThreadPool has no bulk FQ overload; poolLoadMultiplier = stealingLoadMultiplier = 1 with every functor held at a gate until the caller has made all its calls, so that successive calls see the pool empty, below, beyond and far beyond (more than 2x+1) the pool load factor, the pool-recursive factor (1.5 n) and the task-set factor - the conditions under which the non-FQ overloads run inline (each recorded as a cover marker before the call); also ungated, with two concurrent callers, and with the default multipliers. Caller = T0 or a task running on a pool thread. Every interleaving with <= 1 deviation (thorough: more programs, and bound 2 on the shortest programs). Oracle: no functor handed to an FQ call starts on the calling thread while that call is in progress; every functor runs exactly once.',
     level_note='SC interleavings; ConcurrentTaskSet::scheduleBulk from a pool thread enqueues without a producer token, which makes moodycamel index a table by the thread\'s TLS address: the harness normalises glibc\'s thread-stack cache before each execution for those configurations (harness/submit_stacknorm.h). TSan and ASan legs on two (thorough: four) shapes.',
